@@ -83,6 +83,31 @@ RAW_LOG = {
 }
 
 
+# every logical type the library knows, plus annotations it does not interpret (more distinct
+# (type, logicalType) combinations than any small cache would hold)
+RAW_ALL = {"type": "record", "name": "All", "fields": [
+    {"name": "a", "type": {"type": "int", "logicalType": "date"}},
+    {"name": "b", "type": {"type": "int", "logicalType": "time-millis"}},
+    {"name": "c", "type": {"type": "long", "logicalType": "time-micros"}},
+    {"name": "d", "type": {"type": "long", "logicalType": "timestamp-millis"}},
+    {"name": "e", "type": {"type": "long", "logicalType": "timestamp-micros"}},
+    {"name": "f", "type": {"type": "long", "logicalType": "local-timestamp-millis"}},
+    {"name": "g", "type": {"type": "long", "logicalType": "local-timestamp-micros"}},
+    {"name": "h", "type": {"type": "string", "logicalType": "uuid"}},
+    {"name": "i", "type": {"type": "bytes", "logicalType": "decimal", "precision": 8, "scale": 2}},
+    {"name": "j", "type": {"type": "fixed", "name": "FJ", "size": 6, "logicalType": "decimal", "precision": 10, "scale": 1}},
+    {"name": "k", "type": {"type": "int", "logicalType": "x-one"}},
+    {"name": "l", "type": {"type": "string", "logicalType": "x-two"}},
+    {"name": "m", "type": {"type": "double", "logicalType": "x-three"}},
+    {"name": "n", "type": {"type": "array", "items": {"type": "long", "logicalType": "timestamp-micros"}}},
+]}
+ALL1 = {"a": dt.date(1999, 12, 31), "b": dt.time(1, 2, 3, 4000), "c": dt.time(23, 59, 59, 999999),
+        "d": dt.datetime(2001, 2, 3, 4, 5, 6, 7000, tzinfo=dt.timezone.utc), "e": dt.datetime(1960, 1, 1, 0, 0, 0, 1, tzinfo=dt.timezone.utc),
+        "f": dt.datetime(2020, 5, 17, 12, 0, 0, 123000), "g": dt.datetime(1901, 1, 1, 1, 1, 1, 1),
+        "h": uuid.UUID(int=0xFEDCBA9876543210FEDCBA9876543210), "i": decimal.Decimal("-12345.67"), "j": decimal.Decimal("98765432.1"),
+        "k": 7, "l": "plain", "m": 2.5, "n": [dt.datetime(1970, 1, 1, tzinfo=dt.timezone.utc), dt.datetime(2038, 1, 19, 3, 14, 8, tzinfo=dt.timezone.utc)]}
+
+
 def raw_dec(prec, scale, name):
     return {"type": "record", "name": name, "fields": [
         {"name": "d", "type": {"type": "bytes", "logicalType": "decimal", "precision": prec, "scale": scale}},
@@ -106,6 +131,7 @@ class Ops:
         self.REC = fa.parse_schema(copy.deepcopy(RAW_REC))
         self.REC2 = fa.parse_schema(copy.deepcopy(RAW_REC2))
         self.LOG = fa.parse_schema(copy.deepcopy(RAW_LOG))
+        self.ALL = fa.parse_schema(copy.deepcopy(RAW_ALL))
         self.D30 = fa.parse_schema(raw_dec(30, 2, "D30"))
         self.D2 = fa.parse_schema(raw_dec(2, 1, "D2"))
         self.D9 = fa.parse_schema(raw_dec(9, 0, "D9"))
@@ -114,6 +140,7 @@ class Ops:
         self.dec9 = {"d": decimal.Decimal("123456789"), "n": 3}
         self.b_rec = [self._sw(self.REC, REC1), self._sw(self.REC, REC2)]
         self.b_log = self._sw(self.LOG, LOG1)
+        self.b_all = self._sw(self.ALL, ALL1)
         self.b_d30 = self._sw(self.D30, self.dec30)
         self.b_d2 = self._sw(self.D2, self.dec2)
         self.b_d9 = self._sw(self.D9, self.dec9)
@@ -174,7 +201,18 @@ class Ops:
             w.flush()
             return b.getvalue()
 
+        from fastavro.schema import expand_schema
+
+        def jdump(x):
+            import json as _json
+            return _json.dumps(strip(x), sort_keys=True, default=repr)
+
         return {
+            "expand_parsed": lambda: jdump(expand_schema(self.REC)),
+            "expand_raw": lambda: jdump(expand_schema(copy.deepcopy(RAW_REC))),
+            "swrite_all_logical": lambda: self._sw(self.ALL, ALL1),
+            "sread_all_logical": lambda: fa.schemaless_reader(io.BytesIO(self.b_all), self.ALL),
+            "validate_all_logical": lambda: fa.validate(ALL1, self.ALL),
             "wclass_a": lambda: wclass([REC1, REC2, REC1, REC2], "null", b"\x04" * 16),
             "wclass_b": lambda: wclass([REC2, REC2, REC1], "deflate", b"\x05" * 16),
             "block_copy": bcopy,
@@ -367,7 +405,10 @@ def run_shard(spec):
                    ("sread_rec", "sread_rec_named"), ("jwrite_rec_b", "jwrite_rec"), ("cwrite_rec", "cwrite_rec_deflate"),
                    ("jread_rec", "jwrite_rec_b"), ("parse_raw", "parse_raw2"), ("swrite_rec", "swrite_rec2"),
                    ("cread_rec_resolve", "cread_rec"), ("swrite_log", "sread_log"), ("validate_rec", "validate_bad"),
-                   ("wclass_a", "wclass_b"), ("wclass_b", "wclass_a"), ("block_copy", "wclass_a"), ("block_read", "block_copy")]
+                   ("wclass_a", "wclass_b"), ("wclass_b", "wclass_a"), ("block_copy", "wclass_a"), ("block_read", "block_copy"),
+                   ("expand_parsed", "swrite_rec"), ("swrite_rec", "expand_parsed"), ("expand_parsed", "validate_rec"), ("expand_parsed", "cread_rec"),
+                   ("swrite_all_logical", "sread_all_logical"), ("sread_all_logical", "swrite_all_logical"), ("validate_all_logical", "swrite_all_logical"),
+                   ("swrite_all_logical", "swrite_log"), ("expand_parsed", "expand_parsed"), ("sread_all_logical", "sread_log")]
     all_pairs = [(a, b) for a in names for b in names]
     rng.shuffle(all_pairs)
     mine = [p for i, p in enumerate(fixed_pairs) if i % SHARDS == spec["shard"]] + all_pairs[: PAIRS[tier]]
